@@ -22,6 +22,8 @@ RULE = ('one evaluation = one seeded simulated run: 2-4 clients (threads sharing
         'between clients; distinct = distinct SHA-256 of the full seam event log')
 RULE += ' ' + 'In one run in twelve the clients work on two counters that are removed and created again holding the same few small numbers (incr / pop / delete / set of 1 or 2).'
 RULE += ' ' + 'In runs with a 60 s timeout and no injected stall or busy answer a call that raises Timeout is flagged.'
+RULE += ' ' + 'In one run in sixteen two or three threads sharing one object call len() next to a store by one of them, every source line a pre-emption point, with one caller held up anywhere in its call and one at one of the last steps of a call (positions taken from an undisturbed first run of the same case).'
+RULE += ' ' + 'In one run in fourteen the only item has expired before the clients start: one client peeks at an end (peekitem, either end) while others replace that key; a completed replacement is there at the end and peekitem reports the only item or KeyError.'
 RULE += ' ' + "One seed in 211 is a sequential history of increments by the check's process (keeping a connection, opening further handles) and by fresh interpreters that come and go."
 ASSUMPTIONS = ['interleaving granularity is the seam call (and sampled source lines in shared-object runs); SQLite statements are atomic',
                'iteration is checked for per-key weak consistency, not as an atomic snapshot (generator protocol)']
@@ -97,8 +99,53 @@ def gen_case(seed, tier):
                     prog.append({'op': 'get', 'k': k})
             progs['c%d' % ci] = prog
         faults = []
+    profile_stalls = None
+    if rng.random() < 0.06:
+        # threads sharing one object ask for its length while one of them stores and removes: an answer is a count the
+        # cache had during the call, whatever the other callers of len() on that object are doing.  Every source line is a
+        # pre-emption point here, and two callers are held up for a while: one anywhere in its call, one at one of the
+        # last few steps of a call (positions are taken from a first, undisturbed run of the same case)
+        topo = 'shared'
+        line_p = 1.0
+        sched = {'kind': 'uniform'}
+        k = rng.choice(keys)
+        progs = {'c0': [{'op': 'len'}],
+                 'c1': [{'op': rng.choice(('set', 'add')), 'k': k, 'v': uniq_value(rng, 1, 0, big_n), 'retry': True}, {'op': 'len'}]}
+        if rng.random() < 0.4:
+            progs['c1'].insert(0, {'op': 'len'})
+        if rng.random() < 0.4:
+            progs['c2'] = [{'op': 'len'} for _ in range(rng.randint(1, 2))]
+        if rng.random() < 0.3:
+            progs['c1'] += [{'op': 'delete', 'k': k, 'retry': True}, {'op': 'len'}]
+        profile_stalls = [{'task': 'c0', 'op': 0, 'frac': rng.random(), 'dur': rng.choice((0.5, 2.0, 5.0))},
+                          {'task': 'c1', 'op': len(progs['c1']) - 1 if rng.random() < 0.7 else rng.randrange(len(progs['c1'])),
+                           'from_end': rng.choice((0, 0, 1, 2, 3)), 'dur': rng.choice((7.0, 30.0, 70.0))}]
+        faults = []
+    expired_end = None
+    if rng.random() < 0.07:
+        # the item at the end of the cache has expired and is replaced by one client while another peeks at that end:
+        # peeking removes the expired item and may never take a completed replacement with it (one key only, so that the
+        # model needs no order: peekitem reports the only item there is, or KeyError)
+        k = rng.choice(KEYS)
+        expired_end = {'k': k, 'big': rng.random() < 0.5}
+        progs = {'c0': [{'op': 'peekitem', 'last': rng.random() < 0.5, 'kfp': fp(vals.dec(k)), **({'retry': True} if rng.random() < 0.5 else {})}
+                        for _ in range(rng.choice((1, 2, 3)))]}
+        for ci in range(1, rng.choice((2, 2, 3))):
+            prog = []
+            for j in range(rng.randint(1, 3)):
+                r = rng.random()
+                if r < 0.6:
+                    prog.append({'op': rng.choice(('set', 'set', 'add')), 'k': k, 'v': uniq_value(rng, ci, j, big_n), 'retry': True})
+                elif r < 0.8:
+                    prog.append({'op': 'get', 'k': k})
+                else:
+                    prog.append({'op': 'peekitem', 'last': rng.random() < 0.5, 'kfp': fp(vals.dec(k)), 'retry': True})
+            progs['c%d' % ci] = prog
+        faults = []
+        settings['statistics'] = 0
+        settings['eviction_policy'] = rng.choice(('least-recently-stored', 'none'))
     prefill = None
-    if rng.random() < 0.10:
+    if expired_end is None and rng.random() < 0.10:
         # a bulk removal (evict / expire / clear: batches of 100 rows, one transaction each) running next to writers that
         # replace rows it has yet to reach: a row may only go while it still matches - a completed replacement with
         # another tag and no expiry must survive evict('old') / expire()
@@ -152,7 +199,7 @@ def gen_case(seed, tier):
         # and it is neither a progress defect nor of interest here
         for name in progs:
             progs[name] = [op for op in progs[name] if op.get('op') != 'open_settings'] or [{'op': 'len'}]
-    cfg = {'topology': topo, 'settings': settings, 'sched': sched, 'line_p': line_p, 'prefill': prefill,
+    cfg = {'topology': topo, 'settings': settings, 'sched': sched, 'line_p': line_p, 'prefill': prefill, 'expired_end': expired_end, 'profile_stalls': profile_stalls,
            'dircollide': rng.random() < 0.5, 'post_stmt_yield': rng.random() < 0.5,
            'yield_clock': rng.random() < 0.7, 'clock': {'mode': rng.choice(('tick', 'frozen'))},
            'timeout': rng.choice((60, 60, 0.05))}
@@ -225,6 +272,11 @@ def gen_op(rng, ci, j, keys, counters, big_n):
 def model_apply(state, op):
     if op['op'] in ('iter',):
         return state, None
+    if op['op'] == 'peekitem':
+        if not state:
+            return state, ('exc', 'KeyError')
+        ((_, cur),) = state     # one key only (the expired-end scenario)
+        return state, ('ok', 't(%s,%s)' % (op['kfp'], kvmodel._v(cur)))
     return kvmodel.apply(state, op)
 
 
@@ -458,6 +510,10 @@ def run_case(case):
 
     def prepare(world, main):
         pre = case['cfg'].get('prefill')
+        end = case['cfg'].get('expired_end')
+        if end:
+            main.set(vals.dec(end['k']), b'o' * (70000 if end['big'] else 3), expire=5)
+            world.sim.advance(10)
         if not pre:
             return
         for i in range(pre['n']):
@@ -465,6 +521,19 @@ def run_case(case):
         if pre['bulk'] == 'expire':
             world.sim.advance(10)
 
+    if case['cfg'].get('profile_stalls'):
+        # positions of the stalls: relative to the length (in pre-emption points) each operation has in an undisturbed run
+        dry = conc.run_and_inspect(dict(case, faults=[]), lambda world, main, targets, out: None, prepare=prepare)
+        seams = {(h['task'], h['i']): h.get('seams') or 0 for h in dry.get('history', [])}
+        faults = []
+        for st in case['cfg']['profile_stalls']:
+            n = seams.get((st['task'], st['op']), 0)
+            if n <= 0:
+                continue
+            k = n - st['from_end'] if 'from_end' in st else 1 + int(st['frac'] * n)
+            faults.append({'f': 'stall', 'task': st['task'], 'op': st['op'], 'k': max(1, min(n, k)), 'dur': st['dur']})
+        case = dict(case, faults=faults)
+        probes['profiled_stall_runs'] = 1
     out = conc.run_and_inspect(case, inspect, prepare=prepare)
     violations = out['violations']
     if conc.incident_violations(out, PROPERTY, violations):
